@@ -64,7 +64,8 @@ func NewByteBuffer() *ByteBuffer {
 // This call grows the write area by at least `n` bytes. This might allocate.
 func (b *ByteBuffer) Reserve(n int) {
 	existing := cap(b.data) - b.wi
-	if need := n - existing; need > 0 {
+	if n > existing {
+		need := n - existing // no overflow: n > existing >= 0
 		b.data = b.data[:cap(b.data)]
 		b.data = append(b.data, make([]byte, need)...)
 	}
